@@ -599,6 +599,32 @@ func leadingLit(s Str) string {
 }
 
 func (m *Machine) strIndex(s Str, idx Value) Value {
+	// s[len(s)-k]: decided from the trailing literal; when the string ends in a symbolic part that may be empty, the empty case
+	// is a reachable index-out-of-range panic
+	if si, ok := idx.(SymInt); ok && strKey(si.S) == strKey(s) && si.Off < 0 {
+		if _, conc := s.Concrete(); !conc {
+			k := int(-si.Off)
+			if n := len(s.P); n > 0 && s.P[n-1].Hole == nil && len(s.P[n-1].Lit) >= k {
+				lit := s.P[n-1].Lit
+				return int64(lit[len(lit)-k])
+			}
+			if k == 1 && len(s.P) > 0 && s.P[len(s.P)-1].Hole != nil {
+				minLen := 0
+				for _, p := range s.P {
+					if p.Hole == nil {
+						minLen += len(p.Lit)
+					} else if p.Hole.A.NonEmpty && !holeMayShrinkToEmpty(p.Hole) {
+						minLen++
+					}
+				}
+				if minLen == 0 && m.Decide("strempty:"+strKey(s), 2, "emptiness of a symbolic string") == 1 {
+					panic(m.fail("index out of range [-1]: s[len(s)-1] on an empty string"))
+				}
+				return Unknown{Why: "last byte of a symbolic string"}
+			}
+			panic(m.undecided("index s[len(s)%d] into a symbolic string", si.Off))
+		}
+	}
 	i := m.intOf(idx)
 	lead := leadingLit(s)
 	if i < len(lead) {
@@ -643,6 +669,29 @@ func (m *Machine) strSlice(s Str, lo, hi Value) Value {
 			h.Tr = append(append([]string{}, h.Tr...), "[-1:]")
 			return Str{P: []Piece{{Hole: &h}}}
 		}
+	}
+	// s[l : len(s)-k] with the k bytes inside the trailing literal: cut them off, then apply the lower bound
+	if sh, ok := hi.(SymInt); ok && strKey(sh.S) == strKey(s) && sh.Off <= 0 {
+		k := int(-sh.Off)
+		n := len(s.P)
+		if n > 0 && s.P[n-1].Hole == nil && len(s.P[n-1].Lit) >= k {
+			cut := Str{P: append([]Piece{}, s.P...)}
+			lit := cut.P[n-1].Lit
+			cut.P[n-1] = Piece{Lit: lit[:len(lit)-k]}
+			cut = Cat(cut)
+			if c, isC := cut.Concrete(); isC {
+				l := 0
+				if lo != nil {
+					l = m.intOf(lo)
+				}
+				if l < 0 || l > len(c) {
+					panic(m.fail("slice bounds out of range [%d:%d]", l, len(c)))
+				}
+				return Lit(c[l:])
+			}
+			return m.strSlice(cut, lo, nil)
+		}
+		panic(m.undecided("slice s[:len(s)%d] cuts into the symbolic part of a string", sh.Off))
 	}
 	l := 0
 	if lo != nil {
